@@ -1,0 +1,15 @@
+//go:build verif
+// +build verif
+
+package termincommittee
+
+import (
+	"github.com/orbs-network/lean-helix-go/services/interfaces"
+	"github.com/orbs-network/lean-helix-go/spec/types/go/primitives"
+)
+
+// VerifLeaderOf exposes the package-private leader function to the
+// verification harness (build tag "verif").
+func VerifLeaderOf(view primitives.View, committeeMembers []interfaces.CommitteeMember) primitives.MemberId {
+	return calcLeaderOfViewAndCommittee(view, committeeMembers)
+}
